@@ -11,7 +11,9 @@ use std::{
     time::Instant,
 };
 
-pub const VERIF_DIR: &str = "/verif";
+/// Root of the verification tree (evidence, replays, data, known findings). Overridable so that a
+/// scratch copy of the harness can check a scratch copy of the repository without touching /verif.
+pub static VERIF_DIR: std::sync::LazyLock<String> = std::sync::LazyLock::new(|| std::env::var("VERIF_ROOT").unwrap_or_else(|_| "/verif".to_string()));
 
 #[derive(Clone, Copy, PartialEq, Eq, Debug)]
 pub enum Tier {
@@ -118,7 +120,7 @@ impl Ctx {
             Ok(n) => self.set("kats_passed", json!(n)),
             Err(e) => machinery(&format!("reference primitive KAT failed: {e}")),
         }
-        let path = format!("{VERIF_DIR}/data/cacophony.json");
+        let path = format!("{}/data/cacophony.json", *VERIF_DIR);
         let text = std::fs::read_to_string(&path).unwrap_or_else(|e| machinery(&format!("{path}: {e}")));
         match refnoise::vectors::validate(&text) {
             Ok(r) => {
@@ -168,7 +170,7 @@ impl Ctx {
         }
         // the hfs build of this property ran first (./check runs it before the main build): fold its summary in
         if !self.id.contains('.') {
-            if let Ok(t) = std::fs::read_to_string(format!("{VERIF_DIR}/evidence/{}.hfs.json", self.id)) {
+            if let Ok(t) = std::fs::read_to_string(format!("{}/evidence/{}.hfs.json", *VERIF_DIR, self.id)) {
                 if let Ok(v) = serde_json::from_str::<Value>(&t) {
                     cov.insert("hfs_build".into(), json!({"evaluations": v["coverage"]["evaluations"], "distinct_nontrivial": v["coverage"]["distinct_nontrivial"], "rule": v["coverage"]["rule"], "violations": v["violations"], "wall_s": v["wall_s"], "counters": v["coverage"]["counters"]}));
                 }
@@ -186,8 +188,8 @@ impl Ctx {
             "wall_s": wall,
             "violations": new.len(),
         });
-        let _ = std::fs::create_dir_all(format!("{VERIF_DIR}/evidence"));
-        let path = format!("{VERIF_DIR}/evidence/{}.json", self.id);
+        let _ = std::fs::create_dir_all(format!("{}/evidence", *VERIF_DIR));
+        let path = format!("{}/evidence/{}.json", *VERIF_DIR, self.id);
         std::fs::write(&path, serde_json::to_string_pretty(&evidence).unwrap()).unwrap_or_else(|e| machinery(&format!("{path}: {e}")));
         for (sig, n) in &known_hit {
             println!("KNOWN-FINDING: property={} {} ({} cases)", self.id, sig, n);
@@ -206,7 +208,7 @@ impl Ctx {
         if new.is_empty() {
             return 0;
         }
-        let _ = std::fs::create_dir_all(format!("{VERIF_DIR}/replays"));
+        let _ = std::fs::create_dir_all(format!("{}/replays", *VERIF_DIR));
         let mut seen: Vec<String> = vec![];
         for v in &new {
             if seen.contains(&v.signature) {
@@ -219,7 +221,7 @@ impl Ctx {
                 use sha2::Digest;
                 hex::encode(&sha2::Sha256::digest(text.as_bytes())[..6])
             };
-            let rp = format!("{VERIF_DIR}/replays/{}-{}.json", self.id, digest);
+            let rp = format!("{}/replays/{}-{}.json", *VERIF_DIR, self.id, digest);
             let _ = std::fs::write(&rp, text);
             println!("  signature: {}", v.signature);
             println!("  detail: {}", v.detail);
@@ -243,7 +245,7 @@ pub struct Known {
 
 /// /verif/known_findings.json: [{"property": "C10", "status": "open"|"fixed", "signature": "...", ...}]
 pub fn load_known() -> Vec<Known> {
-    let path = format!("{VERIF_DIR}/known_findings.json");
+    let path = format!("{}/known_findings.json", *VERIF_DIR);
     let Ok(t) = std::fs::read_to_string(&path) else { return vec![] };
     let v: Value = serde_json::from_str(&t).unwrap_or_else(|e| machinery(&format!("{path}: {e}")));
     v["findings"]
